@@ -44,14 +44,12 @@ func AcquireDirLock(dir string, fs vfs.FS) (*DirLock, error) {
 	if !ok {
 		return nil, fmt.Errorf("dirlock: file %q does not expose descriptor", lockPath)
 	}
-	verifYield("dirlock.acquire.opened")
 	if err := syscall.Flock(int(fd), syscall.LOCK_EX|syscall.LOCK_NB); err != nil {
 		if errors.Is(err, syscall.EWOULDBLOCK) {
 			return nil, fmt.Errorf("dirlock: directory %q already in use", dir)
 		}
 		return nil, err
 	}
-	verifYield("dirlock.acquire.locked")
 	if err := f.Truncate(0); err == nil {
 		pid := os.Getpid()
 		host := ""
@@ -78,11 +76,9 @@ func (l *DirLock) Release() error {
 	} else {
 		firstErr = fmt.Errorf("dirlock: file %q does not expose descriptor", l.path)
 	}
-	verifYield("dirlock.release.1")
 	if err := l.file.Close(); err != nil && firstErr == nil {
 		firstErr = err
 	}
-	verifYield("dirlock.release.2")
 	fs := vfs.Ensure(l.fs)
 	if err := fs.Remove(l.path); err != nil && !errors.Is(err, os.ErrNotExist) && firstErr == nil {
 		firstErr = err
